@@ -139,3 +139,57 @@ Qed.
 (* ... and it receives no reward index *)
 Theorem not_started_skipped t a vi : rewards_started a t = false -> skip_rewards t a vi = true.
 Proof. intros H; unfold skip_rewards; rewrite H; cbn. rewrite orb_true_r; reflexivity. Qed.
+
+(* ---------- a schedule change is not retroactive; a weight change is preceded by a snapshot ---------- *)
+Definition NowIs (t : Z) (s : State) : Prop := now s = t.
+Lemma NowIs_f t : forall s s', now s' = now s -> NowIs t s -> NowIs t s'.
+Proof. unfold NowIs; intros; congruence. Qed.
+
+Definition settle_loop (a : Asset) : M unit :=
+  infos <- gets valinfos ;;
+  mfor_swallow infos (fun kv =>
+    match fst kv with
+    | [v] =>
+      '(_, vi) <- get_alliance_validator v ;;
+      vi1 <- claim_validator_rewards v vi ;;
+      h <- gets height ;;
+      modify (fun s => set_snapshots (kset (snapshots s) [a_denom a; v; h]
+                (mkSnapshot (a_weight a) (rh_by_alliance (vi_hist vi1) (a_denom a)))) s)
+    | _ => ret tt
+    end) ;;;
+  queue_rebalance.
+Lemma now_settle_loop t a : inv (NowIs t) (settle_loop a).
+Proof. unfold settle_loop. inv_deep (NowIs_f t). Qed.
+
+Definition schedule_clock (t : Z) (a na : Asset) : Z :=
+  if (negb (a_rate na =? a_rate a) || negb (a_interval na =? a_interval a))
+     && ((a_rate a =? ONE) || (a_interval a =? 0))
+  then t else a_last na.
+
+(* UpdateAllianceAsset, when it returns: the stored record carries the new parameters, the staked
+   total / shares / start time of the OLD record, and a decay clock that starts NOW exactly when a
+   schedule is configured where none was running (rate 1 or interval 0 before) *)
+Theorem update_asset_clock na a s s' :
+  kget (assets s) [a_denom na] = Some a -> a_denom a = a_denom na ->
+  update_alliance_asset na s = Ok tt s' ->
+  exists b, kget (assets s') [a_denom na] = Some b /\
+    a_last b = schedule_clock (now s) a na /\
+    a_weight b = a_weight na /\ a_rate b = a_rate na /\ a_interval b = a_interval na /\ a_take b = a_take na /\
+    a_tokens b = a_tokens a /\ a_vshares b = a_vshares a /\ a_start b = a_start a.
+Proof.
+  intros Ha Hd Hrun. unfold update_alliance_asset in Hrun. unfold bind at 1, get_asset at 1, gets at 1 in Hrun. rewrite Ha in Hrun.
+  destruct ((a_weight na <? a_wmin na) || (a_wmax na <? a_weight na)); [discriminate|].
+  unfold bind at 1 in Hrun.
+  assert (Hnow : forall s1, (if negb (a_weight na =? a_weight a) then settle_loop a else ret tt) s = Ok tt s1 -> now s1 = now s).
+  { intros s1 E. destruct (negb (a_weight na =? a_weight a)).
+    - pose proof (now_settle_loop (now s) a s eq_refl) as H. rewrite E in H. exact H.
+    - inversion E; reflexivity. }
+  change (if negb (a_weight na =? a_weight a) then _ else ret tt) with
+         (if negb (a_weight na =? a_weight a) then settle_loop a else ret tt) in Hrun.
+  destruct ((if negb (a_weight na =? a_weight a) then settle_loop a else ret tt) s) as [[] s1| |] eqn:E1; try discriminate.
+  specialize (Hnow s1 eq_refl). unfold bind at 1, gets at 1 in Hrun.
+  unfold set_asset, modify in Hrun. inversion Hrun; subst s'. clear Hrun.
+  cbn [a_denom set_a_wmax set_a_wmin set_a_last set_a_interval set_a_rate set_a_weight set_a_take assets set_assets].
+  rewrite Hd. rewrite kget_kset_same. eexists; split; [reflexivity|].
+  cbn. rewrite Hnow. unfold schedule_clock. repeat split; reflexivity.
+Qed.
